@@ -6,23 +6,31 @@ use std::sync::atomic::{AtomicUsize, Ordering};
 // ---- an allocator that records the largest single request made by a thread that asked for it (C05: no allocation proportional to a
 // size that is merely declared on the wire); everything is passed on to the system allocator
 pub struct Counting;
-// ---- watchdog: code under test that spins on a finite input must fail the check, not hang it.  Every allocation made anywhere in
-// the test binary is a heartbeat; a test body runs on its own thread (named after the test) and the test fails when no allocation
-// at all happened for STALL_SECS while the body has not finished.
+// ---- watchdog: code under test that never returns on a finite input must fail the check, not hang it.  A test body runs on its
+// own thread (named after the test) and reports progress once per case (`progress()`, called wherever a check counts a case);
+// the test fails when no case was completed for STALL_SECS while the body has not finished.  (An allocation heartbeat, used at
+// first, is fooled by loops that allocate - a retry loop building a fresh io::Error on every turn.)
 pub static ALLOC_BEAT: std::sync::atomic::AtomicU64 = std::sync::atomic::AtomicU64::new(0);
-pub const STALL_SECS: u64 = 60;
+pub const STALL_SECS: u64 = 120;
+thread_local! { static PROGRESS: std::cell::RefCell<Option<std::sync::Arc<std::sync::atomic::AtomicU64>>> = std::cell::RefCell::new(None); }
+pub fn progress() { PROGRESS.with(|p| if let Some(c) = &*p.borrow() { c.fetch_add(1, Ordering::Relaxed); }) }
 pub fn watched(body: fn()) {
+    let counter = std::sync::Arc::new(std::sync::atomic::AtomicU64::new(0));
+    let c2 = counter.clone();
     let (tx, rx) = std::sync::mpsc::channel();
-    std::thread::Builder::new().name(std::thread::current().name().unwrap_or("vp_native").to_string()).stack_size(16 << 20).spawn(move || { let r = std::panic::catch_unwind(body); let _ = tx.send(r); }).unwrap();
+    std::thread::Builder::new().name(std::thread::current().name().unwrap_or("vp_native").to_string()).stack_size(16 << 20).spawn(move || {
+        PROGRESS.with(|p| *p.borrow_mut() = Some(c2));
+        let r = std::panic::catch_unwind(body); let _ = tx.send(r);
+    }).unwrap();
     let (mut last, mut idle) = (u64::MAX, 0u64);
     loop {
         match rx.recv_timeout(std::time::Duration::from_secs(1)) {
             Ok(Ok(())) => return,
             Ok(Err(p)) => std::panic::resume_unwind(p),
             Err(std::sync::mpsc::RecvTimeoutError::Timeout) => {
-                let now = ALLOC_BEAT.load(Ordering::Relaxed);
+                let now = counter.load(Ordering::Relaxed);
                 if now == last { idle += 1; } else { idle = 0; last = now; }
-                if idle >= STALL_SECS { panic!("the code under test made no progress for {} s and did not return (non-termination on a finite input)", STALL_SECS); }
+                if idle >= STALL_SECS { panic!("no case of this check was completed for {} s and the code under test did not return (non-termination on a finite input); {} cases had been completed", STALL_SECS, now); }
             }
             Err(_) => panic!("the check's body thread vanished"),
         }
